@@ -114,7 +114,13 @@ pub fn raw_lang(t: Language) -> Vec<Fail> {
             if le_text(&x.to_le_bytes()) != t.as_str() {
                 out.push(fail("raw-language", format!("integer form of {} spells {:?} (little-endian)", t, le_text(&x.to_le_bytes()))));
             }
-            let b = unsafe { Language::from_raw_unchecked(x) };
+            let b = match guard(|| unsafe { Language::from_raw_unchecked(x) }) {
+                Ok(b) => b,
+                Err(p) => {
+                    out.push(fail("raw-language", format!("from_raw_unchecked({}) of the valid subtag {} panicked: {}", x, t, p)));
+                    return out;
+                }
+            };
             if b != t || b.as_str() != t.as_str() {
                 out.push(fail("raw-language", format!("{} -> {} -> {}", t, x, b)));
             }
@@ -128,7 +134,13 @@ pub fn raw_script(t: Script) -> Vec<Fail> {
     if le_text(&x.to_le_bytes()) != t.as_str() {
         out.push(fail("raw-script", format!("integer form of {} spells {:?}", t, le_text(&x.to_le_bytes()))));
     }
-    let b = unsafe { Script::from_raw_unchecked(x) };
+    let b = match guard(|| unsafe { Script::from_raw_unchecked(x) }) {
+        Ok(b) => b,
+        Err(p) => {
+            out.push(fail("raw-script", format!("from_raw_unchecked({}) of the valid subtag {} panicked: {}", x, t, p)));
+            return out;
+        }
+    };
     if b != t || b.as_str() != t.as_str() {
         out.push(fail("raw-script", format!("{} -> {} -> {}", t, x, b)));
     }
@@ -140,7 +152,13 @@ pub fn raw_region(t: Region) -> Vec<Fail> {
     if le_text(&x.to_le_bytes()) != t.as_str() {
         out.push(fail("raw-region", format!("integer form of {} spells {:?}", t, le_text(&x.to_le_bytes()))));
     }
-    let b = unsafe { Region::from_raw_unchecked(x) };
+    let b = match guard(|| unsafe { Region::from_raw_unchecked(x) }) {
+        Ok(b) => b,
+        Err(p) => {
+            out.push(fail("raw-region", format!("from_raw_unchecked({}) of the valid subtag {} panicked: {}", x, t, p)));
+            return out;
+        }
+    };
     if b != t || b.as_str() != t.as_str() {
         out.push(fail("raw-region", format!("{} -> {} -> {}", t, x, b)));
     }
@@ -156,7 +174,13 @@ pub fn raw_variant(t: Variant) -> Vec<Fail> {
     if le_text(&x.to_le_bytes()) != t.as_str() {
         out.push(fail("raw-variant", format!("integer form of {} spells {:?}", t, le_text(&x.to_le_bytes()))));
     }
-    let b = unsafe { Variant::from_raw_unchecked(x) };
+    let b = match guard(|| unsafe { Variant::from_raw_unchecked(x) }) {
+        Ok(b) => b,
+        Err(p) => {
+            out.push(fail("raw-variant", format!("from_raw_unchecked({}) of the valid subtag {} panicked: {}", x, t, p)));
+            return out;
+        }
+    };
     if b != t || b.as_str() != t.as_str() {
         out.push(fail("raw-variant", format!("{} -> {} -> {}", t, x, b)));
     }
